@@ -111,6 +111,8 @@ type caseIn struct {
 	Down     []string `json:"down"`
 	Sched    []int    `json:"sched"`
 	Counters bool     `json:"counters"`
+	UpEofl   bool     `json:"up_eofl"`   // the upload source returns its last chunk together with io.EOF
+	DownEofl bool     `json:"down_eofl"` // same for the download source (gated mode)
 	// duplex mode
 	UpLen    int    `json:"up_len"`
 	DownLen  int    `json:"down_len"`
@@ -150,6 +152,8 @@ type caseOut struct {
 	DownMid   string `json:"down_mid,omitempty"`
 	UpFinal   string `json:"up_final,omitempty"`
 	DownFinal string `json:"down_final,omitempty"`
+	Sent      int64  `json:"sent"` // BytesSentCounter / BytesReceivedCounter after the run (gated, fwdcut)
+	Recv      int64  `json:"recv"`
 
 	Ids   []string `json:"ids,omitempty"`   // tid mode: TunnelIDFromString(s) hex
 	Backs []string `json:"backs,omitempty"` // tid mode: TunnelIDToString(id) hex
@@ -955,6 +959,8 @@ func runCase(raw json.RawMessage) (res interface{}) {
 		runGated(&c, out)
 	case "duplex":
 		runDuplex(&c, out)
+	case "fwdcut":
+		runFwdCut(&c, out)
 	default:
 		panic("bad mode " + c.Mode)
 	}
